@@ -117,6 +117,35 @@ func trunc2(s string, n int) string {
 	return s
 }
 
+// headerCuts returns, for every count / length line of a well-formed stream, the
+// offsets right before its CR, between CR and LF, and right after the LF.
+func headerCuts(stream []byte) []int {
+	var cuts []int
+	off := 0
+	for off < len(stream) {
+		args, n, err := ParseRequestAsRedis(stream[off:])
+		if err != nil {
+			break
+		}
+		p := off
+		line := func() {
+			i := p
+			for stream[i] != '\r' {
+				i++
+			}
+			cuts = append(cuts, i, i+1, i+2)
+			p = i + 2
+		}
+		line() // *N
+		for _, a := range args {
+			line() // $len
+			p += len(a) + 2
+		}
+		off += n
+	}
+	return cuts
+}
+
 // refBoundaries returns the end offsets of the requests of a well-formed stream.
 func refBoundaries(stream []byte) []int {
 	var ends []int
@@ -226,6 +255,15 @@ func runC08(c *Check, rng *rand.Rand) {
 				for len(s) > 70 {
 					s = genStream(lrng, 1, 0)
 				}
+			case i == 2 && bufsize > 7:
+				// arguments of 7- and 8-digit lengths (the longest header lines)
+				big := make([]byte, 1000000+lrng.Intn(200000))
+				lrng.Read(big)
+				s = append(EncodeReq([]byte("SET"), []byte("bigkey"), big), Req("GET", "after")...)
+				if c.Thorough() {
+					big2 := make([]byte, 5500000)
+					s = append(s, EncodeReq([]byte("SET"), []byte("bigkey2"), big2)...)
+				}
 			case i%25 == 1 && bufsize > 7:
 				s = genStream(lrng, 3, c.Pick(70000, 1<<20)) // crosses ring growth thresholds
 			default:
@@ -242,6 +280,12 @@ func runC08(c *Check, rng *rand.Rand) {
 			} else {
 				for k := 0; k < 40; k++ {
 					cs.Cuts = append(cs.Cuts, []int{1 + lrng.Intn(n-1)})
+				}
+				// cuts inside and right behind every count / length line
+				for _, hc := range headerCuts(s) {
+					if hc > 0 && hc < n {
+						cs.Cuts = append(cs.Cuts, []int{hc})
+					}
 				}
 				// cuts right at and around element boundaries
 				for _, e := range refBoundaries(s) {
